@@ -114,3 +114,24 @@ Example C02_demo :
   o = Ok (VList [VList [VTok B; VTok X1]; VTok X2]) /\ pos s = 3.
 Proof. vm_compute. split; reflexivity. Qed.
 Print Assumptions C02_demo.
+
+(* Which generated method grows a seed: whatever original rule the generator emits, in whatever state, if the
+   analysis marked it left-recursive it is decorated @memoize_left_rec exactly when the analysis chose it as
+   the leader of its cycle, and @logger (never the caching @memoize) otherwise; and no method of a grammar
+   without leaders is a seed grower (Proofs/GenDeco.v). *)
+From Pegen Require Import Grammar.Ast Analysis.Visitor Analysis.Nullable Gen.Gen Proofs.GenDeco.
+Theorem C02_generated_leaders_grow_and_members_are_not_cached :
+  forall invalid_tbl iter_fields rs0 nullable_rules left_rec leaders item_flag r st m st',
+  emit_rule invalid_tbl iter_fields rs0 nullable_rules left_rec leaders item_flag r st = (inl m, st') ->
+  is_original r = true -> mem_str (rname r) left_rec = true ->
+  m_name m = rname r /\ m_deco m = (if mem_str (rname r) leaders then DMemoLeftRec else DLogger).
+Proof. intros. eapply emit_rule_deco_exact; eauto. Qed.
+Print Assumptions C02_generated_leaders_grow_and_members_are_not_cached.
+
+Theorem C02_only_leaders_grow :
+  forall invalid_tbl iter_fields rs0 nullable_rules left_rec leaders item_flag r st m st',
+  emit_rule invalid_tbl iter_fields rs0 nullable_rules left_rec leaders item_flag r st = (inl m, st') ->
+  m_deco m = DMemoLeftRec ->
+  mem_str (rname r) leaders = true /\ mem_str (rname r) left_rec = true /\ is_original r = true.
+Proof. intros. eapply emit_rule_deco; eauto. Qed.
+Print Assumptions C02_only_leaders_grow.
